@@ -310,7 +310,10 @@ def congruence_comparer(comparer_params_eval, student_eval, utils):
 
     expected_reduced = expected % modulus
     input_reduced = student_eval % modulus
-    return utils.within_tolerance(expected_reduced, input_reduced)
+    # Values just below the modulus are congruent to values just above zero,
+    # so also compare across the wrap-around
+    return any(utils.within_tolerance(expected_reduced, input_reduced + shift)
+               for shift in (0, modulus, -modulus))
 
 def eigenvector_comparer(comparer_params_eval, student_eval, utils):
     """
